@@ -7,6 +7,15 @@ import worlds
 FAM = {'C05'}
 
 
+def class_fixtures(rng, world):
+    """some classes get a setUpClass that would skip / fail the class: the runner
+    calls the tests one by one and never runs class fixtures (if it did, the
+    per-test hooks would have to stay balanced around them all the same)"""
+    for cs in world['classes'].values():
+        if rng.random() < 0.15:
+            cs['setUpClass'] = rng.choice(['skip', 'skip', 'raise', 'ok'])
+
+
 def opts(rng):
     o = {'verbose': rng.choice([0, 1, 2, 3])}
     if rng.random() < 0.35:
@@ -57,6 +66,8 @@ def run(chk, tier, seed, replay=None):
               'permute_names': True}
     cases = corecheck.gen_cases(rng, graphs, n1, prof_a, 'a')
     cases += corecheck.gen_cases(rng, graphs, n2, prof_b, 'b')
+    for c in cases:
+        class_fixtures(rng, c['world'])
     for c in cases[:3]:
         chk.sample({'world': c['world'], 'options': c['o'], 'mode': c['mode']})
     corecheck.run_cases(chk, FAM, cases)
